@@ -563,7 +563,7 @@ def plan_c11(ctx):
             vals = [rng.choice([["list", [["num", 1], ["var", 4]]], ["cmp", "Pair", [["var", 5], ["list", [["var", 4]]]]],
                                 ["var", 4], ["ilist", [["var", 6], ["var", 4]]]]) for _ in range(k)]
             cut = rng.randint(0, len(chain))
-            how = rng.choice(["conde", "each", "member"])
+            how = rng.choice(["conde", "each", "each", "each", "member"])   # mostly one project goal per branch (see finding 17)
             take = 1000
             if how == "each":
                 body = chain[:cut] + [["conde", [[["eq", ["var", 1], v]] + chain[cut:] + [["project", [1], body_of()]] for v in vals]]]
@@ -573,7 +573,7 @@ def plan_c11(ctx):
                 body = chain[:cut] + [["call", "member", [["var", 1], ["list", vals]]]] + chain[cut:] + [["project", [1], body_of()]]
             add(ctx, [query(ctx, "C11-w-%d" % i, 2, [["fresh", [4, 5, 6], body]], take=take, fuel=10)])
             continue
-        how = rng.choice(["member", "conde", "loop", "each"])
+        how = rng.choice(["member", "conde", "loop", "each", "each", "each"])
         take = 1000
         if how == "each":
             # one project goal PER branch (each has its own projection cell)
